@@ -1103,6 +1103,27 @@ ares_status_t ares_dns_write_buf(const ares_dns_record_t *dnsrec,
 
   orig_len = ares_buf_len(buf);
 
+  /* Name compression pointers are offsets from the first byte of the DNS
+   * message.  If the buffer already holds other data (a TCP length prefix,
+   * previously queued messages) build the message on its own and append it. */
+  if (orig_len != 0) {
+    ares_buf_t          *msg = ares_buf_create();
+    const unsigned char *data;
+    size_t               data_len = 0;
+
+    if (msg == NULL) {
+      return ARES_ENOMEM;
+    }
+
+    status = ares_dns_write_buf(dnsrec, msg);
+    if (status == ARES_SUCCESS) {
+      data   = ares_buf_peek(msg, &data_len);
+      status = ares_buf_append(buf, data, data_len);
+    }
+    ares_buf_destroy(msg);
+    return status;
+  }
+
   status = ares_dns_write_header(dnsrec, buf);
   if (status != ARES_SUCCESS) {
     goto done;
